@@ -42,6 +42,10 @@ CHECKS = {
    technique="bounded symbolic execution of the real Go diff code (go/ssa -> SMT bit-vectors; LCS, rune conversion, Apply/validate, sort) on two symbolic texts; z3 decides each assertion; counterexamples replayed natively",
    text="diff.Strings and diff.Bytes (diffASCII, diffRunes, lcs.DiffBytes/DiffRunes with the two-sided LCS search, rune/byte offset conversion) run symbolically on two texts of 0..3 (quick) / 0..4 (thorough) fully symbolic bytes each, assumed valid UTF-8 (ASCII, multi-byte, mixed): the computed edit list is sorted, in bounds, non-overlapping, falls on rune boundaries of the first text, is accepted by diff.Apply, and applying it yields exactly the second text. diff.Apply/validate additionally on two arbitrary edits with symbolic bounds: accepted iff in bounds and disjoint after sorting, and the result is the reference splice.",
    note="Trusted: go/ssa, the executor (validated per run by native replay of path models), z3 5.1.0; sort.Slice is modelled as a stable in-place insertion sort driven by the caller's less closure. Texts longer than 4 bytes, invalid UTF-8 inputs and unified-diff rendering (ToUnified, lineEdits) are outside the bound."),
+ "C21": dict(engine=E1, category="model_checking", design="DESIGN.md#C21",
+   technique="bounded symbolic execution of the real Go server code (LSPServer.changedText/applyIncrementalChanges, protocol.Mapper; go/ssa -> SMT bit-vectors) on a symbolic document, range and replacement; z3 decides each assertion against a UTF-16 client model; counterexamples replayed natively",
+   text="(*LSPServer).changedText with applyIncrementalChanges and protocol.Mapper.RangeOffsets/PositionOffset/initLines (real utf8 decoding) run symbolically on a document of 0..3 (quick) / 0..4 (thorough) fully symbolic bytes (valid UTF-8 incl. 2-, 3- and 4-byte characters, several lines), one incremental change whose start and end (line, character) are symbolic in 0..6 and whose replacement text is 0..2 symbolic bytes: a range that exists in the client's UTF-16 model is accepted and the resulting text equals the client's; a range outside the document (line or character beyond the end, start after end) is rejected; the stored text is untouched. Because the pre-state document is arbitrary, one step covers every position in a sequence of notifications (each step starts from some document). Full-document changes replace the text.",
+   note="Trusted: the client model in the harness, go/ssa, the executor (validated per run by native replay of path models), z3 5.1.0. DocumentURI.Path (net/url) is an opaque stub; carriage returns and positions inside a surrogate pair are excluded by assumption; DidChange's logging/JSON and SyncFile are not on the path; documents longer than 4 bytes are outside the bound."),
  # ---CHECKS-END---
 }
 NA = {
